@@ -1,5 +1,8 @@
 # manifest_text.py — the words MANIFEST.json carries per property
-PENDING = {}
+PENDING = {
+ "C05": "the correspondence suite (accept) and its known findings exist, the theorem file props/C05.v is still being proved; claimed as soon as it compiles",
+ "C14": "the correspondence suites (crash, chain, faults) exist, the theorem file props/C14.v is still being proved; claimed as soon as it compiles",
+}
 TEXT = {
  "C20": {
   "level": "Theorems over the integer-nanosecond model of engine.go for every period, sub-slot configuration and sequence of clock readings (no bound): a pulse fires with the next boundary of Go's time grid; every engine stamp is a multiple of the sub-period and stamps never decrease when the clock does not; in the stop protocol at most the call already in flight completes after Stop, for every schedule. The model is tied to the code by running the real Engine on scripted clocks and comparing every stamp.",
